@@ -340,6 +340,25 @@ def after_output_block_v2(case, obs, k):
     return False
 
 
+def fault_reached(tc, to):
+    """a scripted fault was actually hit in this turn (the faulting action was invoked)"""
+    for s in to["steps"]:
+        if s[0] == "rail" and verdict_of(tc, s[1], s[2]) == "f":
+            return True
+        if s[0] == "act" and ((s[1] == "dialog_act" and tc.get("act_fault")) or (s[1] == "retrieve" and tc.get("retr_fault"))):
+            return True
+    return False
+
+
+def stateless_fault_turn(case, obs, k):
+    """Colang 1.0, history rebuilt from plain messages on every request (no events cache), and the failing turn - not the
+    first one - hit an action fault (internal-error result + hide_prev_turn)"""
+    if case["ver"] != "1.0" or case.get("carry") != "fresh" or k is None or k < 1 or k >= len(obs["turns"]):
+        return False
+    return fault_reached(case["turns"][k], obs["turns"][k])
+
+
+SIG_FRESH = "v1-stateless-history-fault-resumes-earlier-turn"
 SIG_STALE = "v1-stale-context-after-hidden-turn"
 SIG_FLAG = "v2-output-rails-skipped-after-abort"
 SIG_SC = "self-check-output-continues-after-exception"
@@ -353,7 +372,7 @@ def selfcheck_output_blocked_in_exception_mode(case, obs, k):
     return any(s[2] == SC_ID and verdict_of(tc, "out", SC_ID) == "r" for s in rail_calls(to, "out"))
 
 
-def region_signature(case, obs, msg, oracle_codes_stale=(), oracle_codes_flag=(), oracle_codes_sc=()):
+def region_signature(case, obs, msg, oracle_codes_stale=(), oracle_codes_flag=(), oracle_codes_sc=(), oracle_codes_fresh=()):
     """Structural signature of a failing case: which recorded defect region (if any) it lies in.
     `msg` starts with "turn N: [code] …" for oracle failures; comparison failures carry no code."""
     k = failing_turn(msg)
@@ -361,6 +380,8 @@ def region_signature(case, obs, msg, oracle_codes_stale=(), oracle_codes_flag=()
     code = m.group(1) if m else None
     if selfcheck_output_blocked_in_exception_mode(case, obs, k) and code is not None and code in oracle_codes_sc:
         return SIG_SC
+    if stateless_fault_turn(case, obs, k) and (code is None or code in oracle_codes_fresh):
+        return SIG_FRESH
     if after_hidden_turn_v1(case, obs, k) and (code is None or code in oracle_codes_stale):
         return SIG_STALE
     if after_output_block_v2(case, obs, k) and (code is None or code in oracle_codes_flag):
